@@ -4,6 +4,7 @@ import numpy as onp
 
 from autograd.extend import SparseObject, VJPNode, defvjp, defvjp_argnum, primitive, register_notrace, vspace
 
+from ..tracer import getval
 from ..util import func
 from . import numpy_wrapper as anp
 from .numpy_boxes import ArrayBox
@@ -191,14 +192,28 @@ defvjp(
         (anp.cos(anp.pi * x) * anp.pi * x - anp.sin(anp.pi * x)) / (anp.pi * replace_zero(x, 1.0) ** 2),
     ),
 )
-defvjp(anp.reshape, lambda ans, x, shape, order=None: lambda g: anp.reshape(g, anp.shape(x), order=order))
+def memory_order(x, order):
+    # order="A" reads x in Fortran order exactly when x is Fortran contiguous (and not also C
+    # contiguous); the cotangent has to be folded back in that same order
+    if order == "A":
+        flags = onp.asarray(getval(x)).flags
+        return "F" if flags.f_contiguous and not flags.c_contiguous else "C"
+    return order
+
+
+defvjp(
+    anp.reshape,
+    lambda ans, x, shape, order=None: lambda g: anp.reshape(g, anp.shape(x), order=memory_order(x, order)),
+)
 defvjp(anp.roll, lambda ans, x, shift, axis=None: lambda g: anp.roll(g, -shift, axis=axis))
 defvjp(anp.array_split, lambda ans, ary, idxs, axis=0: lambda g: anp.concatenate(g, axis=axis))
 defvjp(anp.split, lambda ans, ary, idxs, axis=0: lambda g: anp.concatenate(g, axis=axis))
 defvjp(anp.vsplit, lambda ans, ary, idxs: lambda g: anp.concatenate(g, axis=0))
 defvjp(anp.hsplit, lambda ans, ary, idxs: lambda g: anp.concatenate(g, axis=1))
 defvjp(anp.dsplit, lambda ans, ary, idxs: lambda g: anp.concatenate(g, axis=2))
-defvjp(anp.ravel, lambda ans, x, order=None: lambda g: anp.reshape(g, anp.shape(x), order=order))
+defvjp(
+    anp.ravel, lambda ans, x, order=None: lambda g: anp.reshape(g, anp.shape(x), order=memory_order(x, order))
+)
 defvjp(anp.expand_dims, lambda ans, x, axis: lambda g: anp.reshape(g, anp.shape(x)))
 defvjp(anp.squeeze, lambda ans, x, axis=None: lambda g: anp.reshape(g, anp.shape(x)))
 
